@@ -209,6 +209,8 @@ def expand_c04(st, seed):
     if st["form"] == "dict" and rng.random() < 0.5:
         rng.shuffle(order)
     r["keyorder"] = order
+    # a single component may be selected by an integer (the documentation allows it) instead of a slice
+    r["compform"] = "int" if rng.random() < 0.5 else "slice"
     r["check"] = ["bnd", "sum", "dyn", "ic", "norm", "obs"]
     return r
 
@@ -445,7 +447,7 @@ def expand_c11l(st, seed):
         r["cols_border"] = border_cols
         r["border"] = border
         kind = term
-        comp = [1, 1] if (term == "neumann" or M == 1) else [1, M]
+        comp = [1, M] if (term == "dirichlet" and M > 1) else ([M, M] if term == "neumann" else [1, 1])
         ncomp = comp[1] - comp[0] + 1
         g = [[dict(c=0, e=[0] * d)] if st["gzero"] else rpoly(rng, d, 2, 1) + [dict(c=rng.choice([1, 2]), e=[0] * d)] for _ in range(ncomp)]
         r["bnd"] = [dict(kind=kind, g=g, comp=comp) for _ in range(2 * dim)]
